@@ -11,7 +11,7 @@ import gen_bases as _gb
 GEN = [_gb.gen_bases]            # Mpir/Model/MpfStr.lean reads mp_bases[].chars_per_bit_exactly and the digit value table
 LEAN_MODULES = ["MpirProofs.Props.C17_stream"]
 THEOREMS = ["Mpir.Io." + t for t in """
-    str_stream_roundtrip str_stream_roundtrip_base0 import_fast_eq_generic import_obj_spec export_fast_eq_generic
+    str_stream_roundtrip mpf_integer_roundtrip_exact str_stream_roundtrip_base0 import_fast_eq_generic import_obj_spec export_fast_eq_generic
     out_fault_at_byte fprintf_fault_at_byte raw_beyond_header
 """.split()]
 TRUSTED = ["hand-written models lean/Mpir/Model/IoStream.lean (mpf_out_str / mpf_inp_str on objects = stream part of Model/Io.lean composed "
